@@ -124,4 +124,37 @@ example : gasUsed 100000 26006 4800 5 (dec18 / 2) = 50000 ∧ gasUsed 30000 2600
     verifyFee 2 21000 0 1 999 1000 = none ∧ verifyFee 2 21000 0 5 2000 1000 = some (1005 * 21000) := by
   decide
 
+/-! ### what a Cosmos transaction is charged -/
+
+/-- **a Cosmos transaction carrying the dynamic-fee option is charged at least the floor** (since cda7d87): accepted with
+    a positive minimum gas price and gas limit, what the fee checker deducts is at least ⌈minGasPrice × gasLimit⌉ -/
+theorem cosmos_charged_floor (minGPraw gas fee baseFee tip : Nat) (hm : 0 < minGPraw) (hg : 0 < gas)
+    (h : cosmosFloorAcceptTx true minGPraw gas fee baseFee (some tip) = true) :
+    minGPraw * gas ≤ cosmosCharged gas fee baseFee (some tip) * dec18 := by
+  simp only [cosmosFloorAcceptTx, Bool.and_eq_true, Bool.or_eq_true, Bool.not_true, Option.isNone_some,
+    decide_eq_true_eq] at h
+  have h2 := h.2
+  have hreq : cosmosRequired minGPraw gas ≤ cosmosCharged gas fee baseFee (some tip) := by
+    rcases h2 with h2 | h2
+    · rcases h2 with h2 | h2
+      · rcases h2 with h2 | h2
+        · simp at h2
+        · omega
+      · omega
+    · exact h2
+  have hd : (0:Nat) < dec18 := by decide
+  have : minGPraw * gas ≤ cosmosRequired minGPraw gas * dec18 := by
+    unfold cosmosRequired
+    have := Nat.div_add_mod (minGPraw * gas + dec18 - 1) dec18
+    have hlt := Nat.mod_lt (minGPraw * gas + dec18 - 1) hd
+    rw [Nat.mul_comm] at this
+    omega
+  exact Nat.le_trans this (Nat.mul_le_mul_right _ hreq)
+
+/-- before: minimum gas price 1 (raw 10^18), gas 200 000, declared fee exactly the floor, tip 0, base fee 0 — accepted and
+    charged nothing; with the repair it is refused -/
+theorem cosmos_charged_below_floor_counterexample :
+    cosmosFloorAcceptTx false dec18 200000 200000 0 (some 0) = true ∧ cosmosCharged 200000 200000 0 (some 0) = 0 ∧
+    cosmosFloorAcceptTx true dec18 200000 200000 0 (some 0) = false := by decide
+
 end Haqq.Fees
